@@ -262,7 +262,9 @@ def validate_symex(k, tier, kdir, seed, mod, native_exe, res):
             agree += 1
             os.remove(rp)
         else:
-            mism.append({'stream': i, 'symex': sym_a[:6], 'native': nat_a[:6], 'replay': rp})
+            d = next((j for j in range(min(len(sym_a), len(nat_a))) if sym_a[j] != nat_a[j]), min(len(sym_a), len(nat_a)))
+            mism.append({'stream': i, 'first_difference_at': d, 'symex': sym_a[d:d + 3], 'native': nat_a[d:d + 3],
+                         'lengths': [len(sym_a), len(nat_a)], 'replay': rp})
     res['translator_validation'] = {'streams': n, 'agree': agree, 'rejected_by_assume': rejected, 'mismatches': mism[:5]}
     return not mism
 
